@@ -102,7 +102,30 @@ def make_motif(a, fs, rng):
     d, s = rng.choice(files)
     data = fs.entries[d][s][1]
     steps = []
-    first = rng.choice(["copy-same-name", "replace-same-size", "delete", "move-disk"])
+    first = rng.choice(["copy-same-name", "replace-same-size", "delete", "move-disk", "empty-disk"])
+    if first == "empty-disk":
+        # a whole disk loses everything while its deletions are still pending across a partial / killed sync; half of the
+        # time the disk held one big file reaching further into the parity than every other disk
+        if len(a.disks) < 2:
+            return []
+        blocks_on = lambda x: sum((len(fs.entries[x][s_][1]) + a.bs - 1) // a.bs for (_d, s_) in fs.files(x))
+        if rng.random() < 0.5:
+            dd = rng.choice(a.disks)
+            def g1():
+                fs.clear_disk(dd)
+                nb = max(blocks_on(x) for x in a.disks if x != dd) + rng.randint(-1, 4)
+                fs.write(dd, b"single-big-file", A.gen_bytes(rng, max(1, nb) * a.bs - rng.choice([0, 1, 17]), "rand"))
+            steps.append(("fs", g1, "disk %s now holds one big file" % a.disk_names[dd]))
+        else:
+            dd = max(a.disks, key=blocks_on)
+        steps.append(("cmd", "sync", ["-E", "-Z"]))
+        steps.append(("fs", lambda: fs.clear_disk(dd), "empty disk %s" % a.disk_names[dd]))
+        steps.append(("cmd", "sync", ["-E", "-Z"] + rng.choice([["-B", str(rng.randint(1, 3))], ["-S", str(rng.randint(0, 2)), "-B", str(rng.randint(1, 3))],
+                                                                    ["--test-kill-after-sync"], ["--test-force-autosave-at", "1", "-B", "2"]])))
+        if rng.random() < 0.5:
+            steps.append(("cmd", "check", []))
+        steps.append(("cmd", "sync", ["-E", "-Z"]))
+        return steps
     tgt = (d, s)
     if first == "copy-same-name" and len(a.disks) > 1:
         d2 = rng.choice([x for x in a.disks if x != d])
